@@ -212,3 +212,35 @@ def run(repo, col):
                            "happens before the evidence is grounded into the same sample, heads of a disjunction reached through evidence are drawn afresh and two heads can be true" % f2.qualname,
                            function=f2.qualname)
     col.floor("M7.finalisation_calls", ncall, 1)
+    # M8: evidence check on the propagated ground program: an annotated-disjunction atom the sampler did not draw takes its weight from the sampler's group record
+    # (q_target.groups): remaining mass None = a sibling head was chosen = the atom is false
+    col.rule("M8", "verify_evidence: unsampled disjunction atoms follow the sampler's group record")
+    ve = mod.functions.get("verify_evidence")
+    if ve is None or len(ve.params) < 4:
+        raise AnalysisError("verify_evidence missing")
+    qt = ve.params[3]
+    loops8 = [n for n in walk_no_nested(ve.node) if isinstance(n, ast.For) and "%s.groups" % qt in norm(n)]
+    if not loops8:
+        reads = [n for n in ast.walk(ve.node) if isinstance(n, ast.Attribute) and n.attr == "groups"]
+        if reads:
+            raise AnalysisError("verify_evidence: the group record is read in a shape that is not understood")
+        col.fail("M8", mod, ve.node, "verify_evidence never consults %s.groups: an annotated-disjunction atom that the sampler did not draw then gets its prior probability (> 0) as weight even when "
+                 "a sibling head was already chosen, so a sample that chose a1 is accepted although the evidence needs the exclusive alternative a2 - accepted worlds contradict the evidence"
+                 % qt, construct="verify_evidence: disjunction exclusivity ignored", function="verify_evidence")
+    else:
+        if len(loops8) != 1:
+            raise AnalysisError("verify_evidence: several loops read the group record")
+        bp8 = dtable.extract_block(loops8[0].body, opaque_loops=True)
+        closed = [q for q in bp8 if any(".groups" in s_ and t_ is True and s_.endswith("is None") for s_, t_, _ in q.conds)]
+        opened = [q for q in bp8 if any(".groups" in s_ and t_ is False and s_.endswith("is None") for s_, t_, _ in q.conds)]
+        if not closed or not opened:
+            raise AnalysisError("verify_evidence: closed / open group cases not found")
+
+        def _w(q):
+            st = [a_ for fn, a_, _ in q.calls if fn == "<store>" and a_[0].startswith("weights[") and not a_[0].startswith("weights[-")]
+            return [a_[1] for a_ in st]
+        ok8 = all(_w(q) == ["0.0"] for q in closed) and all(_w(q) == ["1.0"] for q in opened)
+        col.decide("M8", mod, loops8[0], ok8, "closed group (a sibling was chosen) -> weight 0, open group -> weight 1",
+                   "verify_evidence gives an undrawn disjunction atom the weight %s when its group is closed and %s when it is open: a head whose sibling was chosen is false (0.0), a head of a "
+                   "group not yet decided may still become true (1.0)" % (sorted(set(sum((_w(q) for q in closed), []))), sorted(set(sum((_w(q) for q in opened), [])))),
+                   construct="verify_evidence: weight of undrawn disjunction atoms", function="verify_evidence")
